@@ -26,6 +26,16 @@ holds exactly when the zone's labels are the trailing labels of the name
 theorem sub_is_labelwise (zone name : Name) : sub zone name = true ↔ LabelSuffix zone name :=
   sub_iff zone name
 
+/-- **Zone membership ignores the case either name is spelled in**: lower-casing
+(what `dns.CanonicalName` / `strings.ToLower` do before the comparisons) commutes
+with label splitting, because it neither creates nor removes a dot or a backslash. -/
+theorem zone_membership_ignores_case (zone name : Str) :
+    LabelSuffix (labelsOf (lower zone)) (labelsOf (lower name)) ↔
+      LabelSuffix (labelsOf zone) (labelsOf name) :=
+  labelSuffix_lower_iff zone name
+
+example : labelsOf (lower "X\\.Example.COM.".toList) = (labelsOf "X\\.Example.COM.".toList).map lower := by decide
+
 /-- `CompareSuffix` never reports more shared labels than either name has. -/
 theorem compareSuffix_bounded (a b : Name) :
     compareSuffix a b ≤ a.length ∧ compareSuffix a b ≤ b.length :=
@@ -541,11 +551,12 @@ theorem nameInZone_is_labelwise (name zone : Str) (hz : zone ≠ [])
 
 /-- **Kept ⇔ owned inside the asked zone.** An answer record of an upstream
 reply survives `Resolver.answer`'s filter exactly when it was in the answer
-section and its (canonical) owner lies label-wise inside the (canonical) name
-of the zone whose servers were asked. -/
+section and its owner lies label-wise inside the zone whose servers were asked
+(in whatever case either is spelled: `labelSuffix_lower_iff`). -/
 theorem answer_kept_iff_in_zone (zone : Str) (hz : zone ≠ []) (answer : List AnsRR) (r : AnsRR) :
     r ∈ filterToZone zone answer ↔
-      r ∈ answer ∧ LabelSuffix (labelsOf (lower zone)) (labelsOf (lower r.owner)) := by
+      r ∈ answer ∧ LabelSuffix (labelsOf zone) (labelsOf r.owner) := by
+  rw [← labelSuffix_lower_iff]
   unfold filterToZone
   rw [List.mem_filter]
   have hz' : lower zone ≠ [] := by
@@ -560,7 +571,7 @@ answer that can reach the client's answer section is owned label-wise inside
 the zone whose servers sent it. -/
 theorem no_out_of_zone_record_relayed (zone : Str) (hz : zone ≠ []) (answer : List AnsRR) (r : AnsRR)
     (h : r ∈ relayedFromUpstream zone answer) :
-    r ∈ answer ∧ LabelSuffix (labelsOf (lower zone)) (labelsOf (lower r.owner)) :=
+    r ∈ answer ∧ LabelSuffix (labelsOf zone) (labelsOf r.owner) :=
   (answer_kept_iff_in_zone zone hz answer r).mp h
 
 /-- What is relayed is a subsequence of what the upstream sent (nothing is invented or reordered). -/
@@ -581,6 +592,175 @@ example : relayedFromUpstream "Evil.test.".toList
   decide
 -- the root's servers may speak for every name
 example : relayedFromUpstream ".".toList [⟨"www.victim.test.".toList, 1, 0⟩] = [⟨"www.victim.test.".toList, 1, 0⟩] := by
+  decide
+
+/-! ## name-server addresses from sub-lookups -/
+
+/-- **`searchAddrs` takes addresses only from A/AAAA records of the section it
+is given, never loopback or a local interface address**, and an A record only
+yields an IPv4 address. -/
+theorem searchAddrs_sound (locals : List IP) (answer : List AddrRR) (a : IP)
+    (h : a ∈ searchAddrs locals answer) :
+    ∃ r ∈ answer, (r.rtype = 1 ∨ r.rtype = 28) ∧ unmap r.addr = some a ∧
+      isLoopback a = false ∧ a ∉ locals ∧ (r.rtype = 1 → a.length = 4) := by
+  unfold searchAddrs at h
+  obtain ⟨r, hr, hx⟩ := List.mem_filterMap.mp h
+  refine ⟨r, hr, ?_⟩
+  by_cases h1 : r.rtype = 1
+  · simp only [h1, if_true] at hx
+    cases hu : usableAddr locals r.addr with
+    | none => rw [hu] at hx; simp at hx
+    | some b =>
+      rw [hu] at hx
+      simp only at hx
+      by_cases hl : (b.length == 4) = true
+      · simp only [hl, if_true, Option.some.injEq] at hx
+        subst hx
+        obtain ⟨u1, u2, u3⟩ := usable_addr_sound locals r.addr b hu
+        exact ⟨Or.inl h1, u1, u2, u3, fun _ => by simpa using hl⟩
+      · simp [hl] at hx
+  · simp only [h1, if_false] at hx
+    by_cases h28 : r.rtype = 28
+    · simp only [h28, if_true] at hx
+      obtain ⟨u1, u2, u3⟩ := usable_addr_sound locals r.addr a hx
+      exact ⟨Or.inr h28, u1, u2, u3, fun h => by omega⟩
+    · simp [h28] at hx
+
+/-- **Name-server addresses come only from records the asked zone owns.** After
+`Resolver.answer`'s filter, every address `searchAddrs` hands to
+`lookupV4Nss`/`lookupNSAddrV4` (and so into the glue caches and server lists)
+is the usable address of an A/AAAA record whose owner lies label-wise inside
+the zone whose servers answered the address question. -/
+theorem ns_addresses_only_from_in_zone_records (locals : List IP) (zone : Str) (hz : zone ≠ [])
+    (answer : List AddrRR) (a : IP)
+    (h : a ∈ searchAddrs locals (answer.filter fun r => nameInZone (lower r.owner) (lower zone))) :
+    ∃ r ∈ answer, LabelSuffix (labelsOf zone) (labelsOf r.owner) ∧
+      (r.rtype = 1 ∨ r.rtype = 28) ∧ unmap r.addr = some a ∧ isLoopback a = false ∧ a ∉ locals := by
+  obtain ⟨r, hr, h1, h2, h3, h4, _⟩ := searchAddrs_sound locals _ a h
+  obtain ⟨hm, hk⟩ := List.mem_filter.mp hr
+  have hz' : lower zone ≠ [] := by
+    intro hh; apply hz; unfold lower at hh; exact List.map_eq_nil_iff.mp hh
+  exact ⟨r, hm, (labelSuffix_lower_iff _ _).mp (nameInZone_sound _ _ hz' hk), h1, h2, h3, h4⟩
+
+-- non-vacuity: the seeded shape of C07-9 — the forged record owned by the victim name is not taken
+example : searchAddrs [] ([⟨"ns2.sub.evil.test.".toList, 1, [198, 51, 100, 5]⟩,
+    ⟨"www.victim.test.".toList, 1, [198, 18, 66, 66]⟩, ⟨"ns2.sub.evil.test.".toList, 1, [127, 0, 0, 1]⟩,
+    ⟨"ns2.sub.evil.test.".toList, 28, [0, 0, 0, 0, 0, 0, 0, 0, 0, 0, 255, 255, 198, 51, 100, 6]⟩].filter
+      fun r => nameInZone (lower r.owner) (lower "sub.evil.test.".toList))
+    = [[198, 51, 100, 5], [198, 51, 100, 6]] := by decide
+
+/-! ## the alias chase (`Cache.additionalAnswer`) -/
+
+/-- **Every record of the composed answer has a known provenance.** After the
+chase, a record in the answer section was either in the (already filtered)
+upstream answer the chase started from, or in the answer section of the
+sub-pipeline's response for one of the targets the chase asked. -/
+theorem chase_records_provenance (resolve : Str → SubResult) (qname : Str) (qtype rcode : Nat)
+    (answer : List ChRR) (r : ChRR)
+    (h : r ∈ (additionalAnswer resolve qname qtype rcode answer).answer) :
+    r ∈ answer ∨ ∃ t ∈ (additionalAnswer resolve qname qtype rcode answer).asked,
+      ∃ sr, resolve t = SubResult.resp sr ∧ r ∈ sr.answer := by
+  unfold additionalAnswer at h ⊢
+  simp only at h ⊢
+  split
+  · rename_i h0; simp only [h0, if_true] at h; exact Or.inl h
+  · rename_i h0
+    simp only [h0, if_false] at h
+    split
+    · rename_i h1; simp only [h1, if_true] at h; exact Or.inl h
+    · rename_i h1
+      simp only [h1, if_false] at h
+      split
+      · rename_i hs; rw [hs] at h; exact Or.inl h
+      · rename_i hs; rw [hs] at h; simp [servFail] at h
+      · rename_i hs; rw [hs] at h; exact Or.inl h
+      · rename_i t hs
+        rw [hs] at h
+        simp only at h
+        obtain ⟨⟨more, h1', _, h3, _⟩, _⟩ :=
+          chaseLoop_inv resolve qname qtype 10 t { rcode := rcode, answer := answer }
+        simp only [List.nil_append] at h1'
+        rcases h3 r h with hh | ⟨t', ht', sr, hs1, hs2⟩
+        · exact Or.inl hh
+        · exact Or.inr ⟨t', by rw [h1']; exact ht', sr, hs1, hs2⟩
+
+/-- **Only alias targets are ever asked, each at most once, at most ten.** A
+name sent to the sub-pipeline is the target of a CNAME in the upstream answer
+or in a sub-response obtained earlier in the same chase; no target is asked
+twice (a loop ends the chase) and there are never more than ten. -/
+theorem chase_targets_are_alias_targets (resolve : Str → SubResult) (qname : Str) (qtype rcode : Nat)
+    (answer : List ChRR) :
+    let out := additionalAnswer resolve qname qtype rcode answer
+    (∀ t ∈ out.asked,
+      (∃ c ∈ answer, c.rtype = typeCNAME ∧ c.target = t) ∨
+      ∃ t' ∈ out.asked, ∃ sr, resolve t' = SubResult.resp sr ∧
+        ∃ c ∈ sr.answer, c.rtype = typeCNAME ∧ c.target = t) ∧
+    out.asked.Nodup ∧ out.asked.length ≤ 10 := by
+  simp only
+  unfold additionalAnswer
+  simp only
+  split
+  · simp
+  · split
+    · simp
+    · split
+      · simp
+      · simp [servFail]
+      · simp
+      · rename_i t hs
+        obtain ⟨⟨more, h1', h2, _, h4⟩, h5⟩ :=
+          chaseLoop_inv resolve qname qtype 10 t { rcode := rcode, answer := answer }
+        simp only [List.nil_append] at h1'
+        refine ⟨?_, ?_, ?_⟩
+        · intro t' ht'
+          rw [h1'] at ht'
+          rcases h4 t' ht' with rfl | ⟨t'', ht'', sr, hs1, c, hc⟩
+          · left
+            rcases scanAnswer_target answer qname qtype none _ hs with hh | hh
+            · cases hh
+            · exact hh
+          · exact Or.inr ⟨t'', by rw [h1']; exact ht'', sr, hs1, c, hc⟩
+        · exact h5 (by simp)
+        · rw [h1']; exact h2
+
+/-- An answer that already holds a record of the query type, a CNAME or DS
+question, and an NXDOMAIN are passed on untouched: nothing is asked. -/
+theorem chase_not_started (resolve : Str → SubResult) (qname : Str) (qtype rcode : Nat)
+    (answer : List ChRR)
+    (h : qtype = typeCNAME ∨ qtype = typeDS ∨ rcode = rcodeNXDomain ∨
+      scanAnswer qname qtype answer none = Scan.answered) :
+    additionalAnswer resolve qname qtype rcode answer = { rcode := rcode, answer := answer, asked := [] } := by
+  unfold additionalAnswer
+  simp only
+  rcases h with h | h | h | h
+  · simp [h]
+  · simp [h]
+  · split
+    · rfl
+    · simp [h]
+  · split
+    · rfl
+    · split
+      · rfl
+      · rw [h]
+
+-- non-vacuity: a two-hop chase; the forged target record of the outer message is not there any more
+-- (it was dropped by `answer()`), the honest one comes from the target's own resolution
+example : additionalAnswer
+    (fun t => if t = "www.victim.test.".toList then
+        SubResult.resp ⟨0, [⟨"www.victim.test.".toList, 5, "web.victim.test.".toList⟩], 0⟩
+      else if t = "web.victim.test.".toList then
+        SubResult.resp ⟨0, [⟨"web.victim.test.".toList, 1, []⟩], 0⟩
+      else SubResult.fail)
+    "q.evil.test.".toList 1 0 [⟨"q.evil.test.".toList, 5, "www.victim.test.".toList⟩]
+    = ⟨0, [⟨"q.evil.test.".toList, 5, "www.victim.test.".toList⟩,
+           ⟨"www.victim.test.".toList, 5, "web.victim.test.".toList⟩, ⟨"web.victim.test.".toList, 1, []⟩],
+       ["www.victim.test.".toList, "web.victim.test.".toList]⟩ := by decide
+-- a loop ends in SERVFAIL after asking each name once
+example : (additionalAnswer
+    (fun t => if t = "a.test.".toList then SubResult.resp ⟨0, [⟨"a.test.".toList, 5, "b.test.".toList⟩], 0⟩
+      else SubResult.resp ⟨0, [⟨"b.test.".toList, 5, "a.test.".toList⟩], 0⟩)
+    "q.test.".toList 1 0 [⟨"q.test.".toList, 5, "a.test.".toList⟩]) = servFail ["a.test.".toList, "b.test.".toList] := by
   decide
 
 /-! ## facts regenerated from the tree -/
